@@ -141,6 +141,8 @@ def run_property(pid, args, contracts, seed):
             else:
                 covers["unknown"] += 1
             continue
+        if "dup_of" in r and st == "unsat":
+            continue          # identical query already counted (same SMT text on another path)
         n_obl += 1
         if st == "unsat":
             n_dis += 1
